@@ -463,3 +463,60 @@ Example ex_sp_ok : sp_ok (SpRows KBare (KRel 3)) /\ sp_ok (SpRange (KAbs 5) (KRe
   /\ sp_unambiguous (SpRange (KAbs 5) (KRel (-1)) KBare (KAbs 16384)) = true
   /\ rel_or_bare (KRel (-1)) /\ rel_or_bare KBare /\ sheet_ok [83; 104; 101; 101; 116; 32; 49] = true.
 Proof. unfold sp_ok, item_ok. cbn. repeat split; try exact I; try reflexivity; lia. Qed.
+
+(* ------------------------------------------------ without an anchor cell *)
+(* an all-absolute spelling needs no anchor; any bare or relative component without one is an
+   AssertionError (require_cell) *)
+Definition comp_absolute (k : comp) : bool := match k with KAbs _ => true | _ => false end.
+Definition opt_absolute (o : option comp) : bool := match o with Some k => comp_absolute k | None => true end.
+Definition item_absolute (x : item) : bool := opt_absolute (fst x) && opt_absolute (snd x).
+Definition sp_absolute (sp : spelling) : bool :=
+  item_absolute (sp_left sp) && match sp_right sp with Some y => item_absolute y | None => true end.
+
+Lemma rc_abs_none is_row o :
+  rc_abs is_row None (option_map comp_rc o)
+  = if opt_absolute o then Ok (option_map (comp_val is_row (0, 0)) o) else Raise AssertionError.
+Proof. destruct o as [[|n|d]|]; reflexivity. Qed.
+
+Lemma r1c1_spelled_none sp : sp_ok sp ->
+  r1c1_boundaries (sp_text sp) None
+  = if sp_absolute sp then Ok (Some (sp_bounds (0, 0) sp)) else Raise AssertionError.
+Proof.
+  intros [Hl Hr]. unfold r1c1_boundaries, sp_text, sp_absolute, item_absolute.
+  destruct sp as [r c|r1 c1 r2 c2|r1 r2|c1 c2]; cbn [sp_left sp_right] in *.
+  - rewrite app_nil_r, (r1c1_match_one _ Hl). cbn [m_row1 m_col1 m_row2 m_col2 m_colon fst snd].
+    rewrite !rc_abs_none. cbn [opt_absolute option_map]. destruct r, c; reflexivity.
+  - rewrite (r1c1_match_two _ _ Hl Hr). cbn [m_row1 m_col1 m_row2 m_col2 m_colon fst snd].
+    rewrite !rc_abs_none. cbn [opt_absolute option_map]. destruct r1, c1, r2, c2; reflexivity.
+  - rewrite (r1c1_match_two _ _ Hl Hr). cbn [m_row1 m_col1 m_row2 m_col2 m_colon fst snd].
+    rewrite !rc_abs_none. cbn [opt_absolute option_map]. destruct r1, r2; reflexivity.
+  - rewrite (r1c1_match_two _ _ Hl Hr). cbn [m_row1 m_col1 m_row2 m_col2 m_colon fst snd].
+    rewrite !rc_abs_none. cbn [opt_absolute option_map]. destruct c1, c2; reflexivity.
+Qed.
+
+Lemma r1c1_spellings_no_anchor s sp : sheet_ok s = true -> sp_ok sp -> sp_unambiguous sp = true ->
+  create (form_prefix 0 s ++ sp_text sp) [] None
+  = if sp_absolute sp then bind (from_bounds s (sp_bounds (0, 0) sp)) (fun a => Ok (VA a))
+    else Raise AssertionError.
+Proof.
+  intros Hs Hok Hu. destruct (sp_text_rchar2 sp) as [C N].
+  assert (RB : range_boundaries (sp_text sp) None
+               = if sp_absolute sp then Ok (sp_bounds (0, 0) sp) else Raise AssertionError).
+  { unfold range_boundaries. rewrite (rchar2_not_bad _ C), (r1c1_spelled_none sp Hok).
+    destruct (a1_defers sp Hok Hu) as [->|(b & -> & ->)]; destruct (sp_absolute sp); reflexivity. }
+  destruct (sp_absolute sp) eqn:A.
+  - apply create_bounds; [apply (form_prefix_ok 0 s Hs)|apply rchar2_no_bang, C|apply rchar2_not_code; assumption|exact RB].
+  - unfold create. rewrite (rchar2_not_code _ _ C N).
+    assert (S : split_sheetname (form_prefix 0 s ++ sp_text sp) [] = Ok (s, sp_text sp)).
+    { destruct (form_prefix_ok 0 s Hs) as [->|p Hp Hq].
+      - apply split_sheetname_bare, rchar2_no_bang, C.
+      - rewrite <- app_assoc. cbn [app].
+        rewrite split_sheetname_text; [rewrite Hq; reflexivity|exact Hp|apply rchar2_no_bang, C]. }
+    rewrite S. cbn [bind fst snd]. rewrite RB. reflexivity.
+Qed.
+
+Example ex_no_anchor :
+  create (sp_text (SpRange (KAbs 1) (KAbs 1) (KAbs 2) (KAbs 2))) [] None = Ok (VA (ARange [] 1 1 2 2))
+  /\ sp_unambiguous (SpRange (KAbs 1) (KAbs 1) (KAbs 2) (KAbs 2)) = true
+  /\ create (sp_text (SpCell (KRel 1) (KAbs 1))) [] None = Raise AssertionError.
+Proof. vm_compute. repeat split; reflexivity. Qed.
